@@ -45,7 +45,7 @@ func (p *tagPool) draw(t *rapid.T, label string) string {
 	return cand
 }
 
-var beginStrings = []string{"FIX.4.4", "FIX.4.2", "FIXT.1.1", "F", "FIX.5.0SP2"}
+var beginStrings = []string{"FIX.4.4", "FIX.4.2", "FIXT.1.1", "F", "FIX.5.0SP2", "FIX.4.0", "FIX.4.1", "FIX.4.3", "FIX.5.0"}
 var msgTypes = []string{"A", "0", "1", "2", "3", "4", "5", "D", "V", "W", "X", "AE", "8", "x", "ZZ"}
 
 // Opts steer template generation.
@@ -306,7 +306,7 @@ func genPops(t *rapid.T, ns []*Node, po PopOpts, decoys []string, forceFirst boo
 			}
 		case KComp:
 			if po.Styles {
-				p.Build = rapid.SampledFrom([]int{0, 0, 1, 2}).Draw(t, lbl+"CompBuild")
+				p.Build = rapid.SampledFrom([]int{0, 0, 1, 2, 3}).Draw(t, lbl+"CompBuild")
 			}
 			p.Items = genPops(t, n.Items, po, decoys, force, depth+1, lbl)
 		case KGroup:
